@@ -703,7 +703,17 @@ func runC16(rc *runCtx) error {
 				plan = append(plan, s.randomPlan())
 			}
 		} else {
-			n := 20 + r.IntN(21)
+			// every pair starts with the same-name life cycle: both users create a collection of the same name,
+			// both fill it, one deletes it, the other must still have all of hers; then the other way round
+			first := r.IntN(2)
+			nm := []string{"col1", "abc", "docs"}[r.IntN(3)]
+			plan = append(plan,
+				c16Plan{first, "create", 2, nm}, c16Plan{1 - first, "create", 2, nm},
+				c16Plan{first, "insert", 2, nm}, c16Plan{1 - first, "insert", 2, nm}, c16Plan{1 - first, "insert", 2, nm},
+				c16Plan{first, "delete", 2, nm}, c16Plan{1 - first, "get", 2, nm}, c16Plan{1 - first, "search", 2, nm},
+				c16Plan{first, "create", 2, nm}, c16Plan{first, "insert", 2, nm},
+				c16Plan{1 - first, "delete", 2, nm}, c16Plan{first, "search", 2, nm})
+			n := 14 + r.IntN(18)
 			for i := 0; i < n; i++ {
 				plan = append(plan, s.randomPlan())
 			}
